@@ -1061,7 +1061,7 @@ def correspond(ctx, res):
             res.count("fields:%d" % len(got))
         res.exhaustive = "scputimes field set for every first-line width 0..12 (all branches of set_scputimes_ntuple); the other families are samples"
         # ---- (a) worlds
-        nw = ctx.n(400, 8000)
+        nw = ctx.n(400, 6000)
         lines, tags = [], []
         for i in range(nw):
             fam = ["plain", "plain", "many_cpus", "fewer_cols", "malformed"][i % 5]
@@ -1083,7 +1083,7 @@ def correspond(ctx, res):
         total_lines += len(lines)
         # ---- (b) call histories: corpus (L9 witness) first
         hists = [l9_witness(impl.tck)]
-        nh = ctx.n(700, 20000)
+        nh = ctx.n(700, 16000)
         for i in range(nh):
             hists.append(gen_call_history(ctx.rng, impl, CALL_FAMILIES[i % len(CALL_FAMILIES)]))
         n_sampled = len(hists)
@@ -1108,7 +1108,7 @@ def correspond(ctx, res):
                          if len(res.samples) < 5 and h["family"] in ("subsecond", "threads", "corpus-L9") else None)
         res.extra["concurrent_runs"] = concurrent_runs(ctx, impl, res, cmp, ctx.n(12, 300))
         # ---- (c) Process.cpu_percent histories
-        np_ = ctx.n(400, 10000)
+        np_ = ctx.n(400, 8000)
         phists = [gen_proc_history(ctx.rng, impl, PROC_FAMILIES[i % len(PROC_FAMILIES)]) for i in range(np_)]
         for a in range(0, len(phists), 1000):
             chunk = phists[a:a + 1000]
